@@ -178,9 +178,14 @@ def run(toks):
                     key = given
                 elif kind in ('xprvk', 'xpubk', 'axprvk'):      # ... parsed into an HDKey object first
                     key = HDKey(given, network=net, witness_type=wt)
+                elif kind == 'single':        # a single-key wallet: one private key, no derivation (scheme 'single')
+                    m = HDKey.from_seed(seed, network=net, witness_type=wt)
+                    key = HDKey(key=m.private_byte, chain=m.chain, network=net, witness_type=wt, key_type='single')
                 else:
                     return 'BADREQ'
                 kw = dict(keys=key, account_id=acct, db_uri=uri)
+                if kind == 'single':
+                    kw['scheme'] = 'single'
                 if 'n' not in flags:
                     kw['network'] = net
                 if 'w' not in flags:
@@ -201,24 +206,26 @@ def run(toks):
             w = s.w
             if c == 'K':
                 acct, chg, wt, net, n = opt_int(f[2]), int(f[3]), _WT[f[4]], opt_str(f[5]), int(f[6])
-                if n == 1 and chg == 1:
+                ckw = {'cosigner_id': int(f[7])} if len(f) > 7 and f[7] != '-' else {}
+                if n == 1 and chg == 1 and not ckw:
                     ks = [w.new_key_change(account_id=acct, witness_type=wt, network=net)]
                 elif n == 1:
-                    ks = [w.new_key(account_id=acct, change=chg, witness_type=wt, network=net)]
+                    ks = [w.new_key(account_id=acct, change=chg, witness_type=wt, network=net, **ckw)]
                 else:
-                    ks = w.new_keys(account_id=acct, change=chg, witness_type=wt, network=net, number_of_keys=n)
+                    ks = w.new_keys(account_id=acct, change=chg, witness_type=wt, network=net, number_of_keys=n, **ckw)
                 s.handed += ks
                 out.append('K=' + fmt_keys(ks) + s.snapshot())
             elif c == 'G':
                 acct, chg, wt, net, n = opt_int(f[2]), int(f[3]), _WT[f[4]], opt_str(f[5]), int(f[6])
-                if n == 1 and chg == 1:
+                ckw = {'cosigner_id': int(f[7])} if len(f) > 7 and f[7] != '-' else {}
+                if n == 1 and chg == 1 and not ckw:
                     ks = [w.get_key_change(account_id=acct, witness_type=wt, network=net)]
                 elif n == 1:
-                    ks = [w.get_key(account_id=acct, witness_type=wt, network=net, change=chg)]
-                elif chg == 1:
+                    ks = [w.get_key(account_id=acct, witness_type=wt, network=net, change=chg, **ckw)]
+                elif chg == 1 and not ckw:
                     ks = w.get_keys_change(account_id=acct, witness_type=wt, network=net, number_of_keys=n)
                 else:
-                    ks = w.get_keys(account_id=acct, witness_type=wt, network=net, number_of_keys=n, change=chg)
+                    ks = w.get_keys(account_id=acct, witness_type=wt, network=net, number_of_keys=n, change=chg, **ckw)
                 s.handed += ks
                 out.append('G=' + fmt_keys(ks) + s.snapshot())
             elif c == 'A':
@@ -231,15 +238,17 @@ def run(toks):
                 parts = spec.split('.')
                 if parts[0] == 'e':
                     path = []
-                elif parts[0] == 'r':
-                    path = [int(x) for x in parts[1:]]
+                elif parts[0] == 'r':          # a list; a hardened item is the string "<n>'"
+                    path = [(x[:-1] + "'") if x.endswith('h') else int(x) for x in parts[1:]]
                 elif parts[0] == 's':          # the same relative path written as a string: "0/5"
-                    path = '/'.join(parts[1:])
-                elif parts[0] == 'f':
+                    path = '/'.join(x.replace('h', "'") for x in parts[1:])
+                elif parts[0] == 'f':          # a full path: "m/84'/0'/0'/0/5" ("M/0/5" below an account-level key)
                     path = '/'.join(x.replace('h', "'") for x in parts[1:])
                 else:
                     return 'BADREQ'
-                k = w.key_for_path(path, account_id=acct, change=chg, address_index=idx, witness_type=wt, network=net)
+                lkw = {'level_offset': int(f[8])} if len(f) > 8 and f[8] != '-' else {}
+                k = w.key_for_path(path, account_id=acct, change=chg, address_index=idx, witness_type=wt, network=net,
+                                   **lkw)
                 s.handed.append(k)
                 out.append('P=' + fmt_keys([k]) + s.snapshot())
             elif c == 'B':      # keys_for_path([], ..., number_of_keys=n): explicit bulk creation
@@ -277,6 +286,10 @@ def run(toks):
                 k = w.public_master(account_id=opt_int(f[2]), witness_type=_WT[f[3]], network=opt_str(f[4]))
                 s.handed.append(k)
                 out.append('M=%s|%s' % (k.path, k.wif) + s.snapshot())
+            elif c == 'Q':      # Wallet.account(account_id): the account key of the wallet's own purpose and network
+                k = w.account(int(f[2]))
+                s.handed.append(k)
+                out.append('Q=' + fmt_keys([k]) + s.snapshot())
             elif c == 'X':      # WalletKey.public() on a key handed out by Wallet.key()
                 lv = leaves(w)
                 k = w.key(lv[int(f[2]) % len(lv)].id)
@@ -310,7 +323,12 @@ def run(toks):
         except (WalletError, BKeyError, ValueError) as e:
             out.append(c + '=ERR' + (s.snapshot() if (s is not None and s.w is not None and c not in 'XLD') else ''))
         except Exception as e:
-            out.append(c + '=CRASH:' + type(e).__name__)
+            if c in 'PMA' and isinstance(e, TypeError) and 'NoneType' in str(e) and s is not None and s.w is not None:
+                # keys_for_path found no key to derive from and returned None ("No master or public master key found
+                # in this wallet"); key_for_path subscripts that: the request was refused
+                out.append(c + '=ERR' + s.snapshot())
+            else:
+                out.append(c + '=CRASH:' + type(e).__name__)
     for s in slots.values():
         try:
             s.w.session.close()
@@ -364,22 +382,35 @@ def msrun(toks):
                 continue
             s = slots[f[1]]
             w = s.w
+            def extra(i):
+                """optional trailing fields <wt>:<net>:<acct> (arguments that may not fit the cosigners' keys)"""
+                kw = {}
+                if len(f) > i and f[i] != '-':
+                    kw['witness_type'] = _WT[f[i]]
+                if len(f) > i + 1 and f[i + 1] != '-':
+                    kw['network'] = f[i + 1]
+                if len(f) > i + 2 and f[i + 2] != '-':
+                    kw['account_id'] = int(f[i + 2])
+                return kw
             if c == 'K':
                 chg, cos, n = int(f[2]), opt_int(f[3]), int(f[4])
                 if n == 1:
-                    ks = [w.new_key(change=chg, cosigner_id=cos)]
+                    ks = [w.new_key(change=chg, cosigner_id=cos, **extra(5))]
                 else:
-                    ks = w.new_keys(change=chg, cosigner_id=cos, number_of_keys=n)
+                    ks = w.new_keys(change=chg, cosigner_id=cos, number_of_keys=n, **extra(5))
                 res = 'K=' + ','.join(fmt_ms(k) for k in ks)
             elif c == 'G':
                 chg, n = int(f[2]), int(f[3])
+                kw = extra(5)
+                if len(f) > 4 and f[4] != '-':
+                    kw['cosigner_id'] = int(f[4])
                 if n == 1:
-                    ks = [w.get_key(change=chg)]
+                    ks = [w.get_key(change=chg, **kw)]
                 else:
-                    ks = w.get_keys(change=chg, number_of_keys=n)
+                    ks = w.get_keys(change=chg, number_of_keys=n, **kw)
                 res = 'G=' + ','.join(fmt_ms(k) for k in ks)
             elif c == 'P':
-                k = w.key_for_path([int(f[2]), int(f[3])])
+                k = w.key_for_path([int(f[2]), int(f[3])], **extra(4))
                 res = 'P=' + fmt_ms(k)
             elif c == 'U':
                 lv = [k for k in w.keys() if k.key_type == 'multisig']
@@ -429,7 +460,7 @@ def expand(t):
 
 
 def dispatch(t):
-    if t[0] == 'run':
+    if t[0] in ('run', 'probe'):      # probe: the same commands, judged by the independent oracle alone
         return run(t)
     if t[0] == 'expand':
         return expand(t)
